@@ -13,6 +13,7 @@ import pathlib
 import re
 import types
 import typing as tp
+import typing_extensions as te
 import uuid
 import warnings
 
@@ -1042,7 +1043,22 @@ class StructuredTypeUnmarshaller(AbstractUnmarshaller[_ST]):
         super().__init__(t, context, var=var)
         self.fields_by_var = self._fields_by_var()
         # A TypedDict is a plain dict at runtime, which won't enforce its required keys.
-        self.required = frozenset(getattr(t, "__required_keys__", ()))
+        self.required = self._required_keys()
+
+    def _required_keys(self) -> frozenset[str]:
+        required = set(getattr(self.t, "__required_keys__", ()))
+        if not required:
+            return frozenset()
+        # With postponed evaluation of annotations (PEP 563) the class can't see
+        #   its own `NotRequired[...]` qualifiers, so check the evaluated hints.
+        try:
+            hints = te.get_type_hints(self.t, include_extras=True)
+        except (NameError, TypeError):
+            hints = {}
+        for name, hint in hints.items():
+            if te.get_origin(hint) is te.NotRequired:
+                required.discard(name)
+        return frozenset(required)
 
     def _fields_by_var(self):
         fields_by_var = {}
